@@ -1,29 +1,7 @@
 # Framework build (setup_cmd). Everything here is independent of /repo's sources:
 # the system under test is compiled by bin/build_sut.py at check time.
-CXX      := clang++
-CXXFLAGS := -std=gnu++17 -g -O1 -fsanitize=address,undefined -fno-omit-frame-pointer -Wall -Wno-unused-function
-B        := build/fw
-PROPS    := $(patsubst props/%.cpp,$(B)/%.o,$(wildcard props/*.cpp))
-MODS     := $(patsubst modules/%.cpp,$(B)/mod_%.o,$(wildcard modules/*.cpp)) $(patsubst modules/%.cpp,$(B)/mod_%_fast.o,$(wildcard modules/*.cpp))
-HDRS     := $(wildcard fw/*.hpp)
-
-setup: $(B)/simk.o $(PROPS) $(MODS)
-
-$(B)/simk.o: fw/simk.cpp $(HDRS)
-	@mkdir -p $(B)
-	$(CXX) $(CXXFLAGS) -c $< -o $@
-
-$(B)/%.o: props/%.cpp $(HDRS)
-	@mkdir -p $(B)
-	$(CXX) $(CXXFLAGS) -c $< -o $@
-
-$(B)/mod_%.o: modules/%.cpp $(HDRS)
-	@mkdir -p $(B)
-	$(CXX) $(CXXFLAGS) -O2 -c $< -o $@
-
-$(B)/mod_%_fast.o: modules/%.cpp $(HDRS)
-	@mkdir -p $(B)
-	$(CXX) -std=gnu++17 -g -O2 -Wall -Wno-unused-function -c $< -o $@
+setup:
+	python3 bin/build_fw.py
 
 clean:
 	rm -rf build
